@@ -22,6 +22,17 @@ TABLE = {
             "(networkx reachability vs independently computed chains).",
             "Lean 4 proof (induction over operation lists) + model/implementation correspondence", "DESIGN.md 7 (C16)",
             "Hypothesis 'every operation acts on at least one mode' is explicit (open finding C16-empty-mode-list)."),
+    "C02": (True,
+            "Refinement theorem (Props/C02.lean): for every item list, include environment and listener state, the "
+            "listener model (state threading, accumulators, loop replay, variable binding and deletion) computes exactly "
+            "the denotation of Blackbird/Spec.lean (statements denote their modes and operation, loops the "
+            "concatenation of the body per value, items the concatenation in textual order) or fails with the same "
+            "error; read off the denotation: one operation per statement with the written name, modes as integers in "
+            "order, arguments = values of the written expressions; denotation of a ++ b is that of a followed by that "
+            "of b; script level: name, version, target/type names and options as written, operations/modes/variables = "
+            "denotation of the items. Oracle: loaded program vs an independent Python evaluation of the generator's AST.",
+            "Lean 4 proof (refinement to a denotational spec, induction over items/values/statements) + correspondence",
+            "DESIGN.md 7 (C02)", "The parse tree walk order (ANTLR ParseTreeWalker) is represented by the item order."),
     "C05": (True,
             "Theorems (Props/C05.lean): a successfully assembled array has as many rows as written, element (r, c) of "
             "the flat data is the c-th entry of the r-th written row (index r*ncols + c), a declared shape equals the "
